@@ -34,10 +34,19 @@
    map wrote (C03_struct_roundtrip), and the older per-property statements (C03_fields_roundtrip,
    C03_set_property_written_partial, C03_guards_partial).
 
-   What remains outside: the byte level of encoding/gob (g1-g4), float64 coordinates that are not
-   multiples of 1e-6, and values outside wf_gob. *)
+   Builder b43: the one-call leaf codecs (GobEncode / GobDecode of IRI, ActivityVocabularyType, MimeType, LangRef,
+   Content, NaturalLanguageValues, LangRefValue, IRIs; gobEncodeInt64 .. gobDecodeEndpoints), the body of
+   gobEncodeItem (its case for an IRI held by pointer included) and what GetItemByType creates are no longer
+   hand-written: the model interprets their statement lists, regenerated from the source on every run
+   (Gen/GobW.gobw_codecs, gob_enc_item; Gen/GobR.gobr_codecs, gob_typer_presets), and gob_whole_ok contains the
+   decidable conditions codecs_ok / enc_item_ok / presets_ok.  The closed forms the proofs are made on are
+   PROVED equal to the interpreters under those conditions (C03_leaf_codecs_closed, C03_enc_item_closed,
+   last section of this file).
+
+   What remains outside: the byte level of encoding/gob and time.Time.GobEncode (g1-g4), float64 coordinates
+   that are not multiples of 1e-6, and values outside wf_gob. *)
 From AP.Model Require Import Prelude Vocab Bytes Layout Pred Dispatch GobTables Gob GobCheck GobNorm GobInst GobWhole.
-From AP.Proofs Require Import GobP GobLeafP GobWireP GobRtP.
+From AP.Proofs Require Import GobCodecP GobP GobLeafP GobWireP GobRtP.
 From AP.Gen Require Import Layout Switches GobW GobR.
 
 (* ---------------------------------------------------------------- table conditions (vm_compute on generated tables) *)
@@ -61,6 +70,15 @@ Proof. vm_compute. split; reflexivity. Qed.
 (* gobDecodeItem tries the shapes in an order in which no encoder output is mis-sniffed *)
 Theorem C03_sniff_order_ok : sniff_ok (ge_sniff genv) = true.
 Proof. vm_compute. reflexivity. Qed.
+
+(* b43: the one-call leaf codecs, the body of gobEncodeItem and what GetItemByType creates, generated statement by
+   statement, are the ones the proofs are made for.  Stated first as a diagnosis: when a codec changes, the error
+   names it (the list of codecs whose statements are not the expected ones is no longer empty) *)
+Theorem C03_bad_codecs_none : bad_codecs genv = [].
+Proof. vm_compute. reflexivity. Qed.
+
+Theorem C03_codecs_condition : codecs_ok genv = true /\ enc_item_ok genv = true /\ presets_ok genv = true.
+Proof. vm_compute. repeat split; reflexivity. Qed.
 
 (* the whole condition of the round-trip theorem, on the tables of this run *)
 Theorem C03_whole_condition : gob_whole_ok genv = true.
@@ -94,7 +112,8 @@ Proof. exact (gob_method_roundtrip genv C03_whole_condition). Qed.
    decoder [rec] of the nested byte strings: each of the five shapes gobEncodeItem writes is read as what
    was written *)
 Theorem C03_sniffing :
-  forall (E : gob_env) (rec : wire -> outcome item) (l : list gsniff), sniff_ok l = true ->
+  forall (E : gob_env), codecs_ok E = true ->
+  forall (rec : wire -> outcome item) (l : list gsniff), sniff_ok l = true ->
     (exists y, sniff_run E rec l WEmpty = Ok y /\ norm_item (ge_layout E) (ge_layout_endpoints E) y = INil) /\
     (forall b, sniff_run E rec l (WRaw b) = Ok (IIri false b)) /\
     (forall ws l', omapM rec ws = Ok l' -> sniff_run E rec l (WList ws) = Ok (IItems false (Some l'))) /\
@@ -328,3 +347,47 @@ Proof.
   exists (IObj true KActor [(F_ID, FStr (B "https://example.com/x")); (F_Inbox, FItem an_iri)]).
   vm_compute. repeat split; reflexivity.
 Qed.
+
+(* ---------------------------------------------------------------- b43: the generated leaf codecs, gobEncodeItem, presets *)
+(* for EVERY table set with codecs_ok / enc_item_ok: the interpreters over the generated statement lists compute
+   the closed forms, for all values, all receivers and all wires *)
+Theorem C03_leaf_codecs_closed : forall E, codecs_ok E = true -> enc_item_ok E = true ->
+  (forall c ov, wenc0 E c ov = wenc0c c ov) /\
+  (forall rec c cur w, rdec0 E rec c cur w = rdec0c rec c cur w) /\
+  (forall l, wenc_iris_t E l = wenc_iris l) /\
+  (forall w c, dec_iris_t E w (LvStrs c) = omap (fun l => LvStrs (c ++ l)) (dec_iris w)) /\
+  (forall rec w, rdec_endpoints_fn E rec w = rdec_endpoints_method E rec w).
+Proof.
+  intros E Hc He. split; [exact (wenc0_closed E Hc He)|]. split; [intros; apply (rdec0_closed E Hc)|].
+  split; [exact (enc_iris E Hc)|]. split; [exact (dec_iris_closed E Hc)|exact (rdec_endpoints_fn_closed E Hc)].
+Qed.
+
+(* gobEncodeItem, for every table set with enc_item_ok: what each shape of item is written as *)
+Theorem C03_enc_item_closed : forall E, enc_item_ok E = true ->
+  (forall i, is_nil i = true -> genc E i = WEmpty) /\
+  (forall p s, is_nil (IIri p s) = false -> genc E (IIri p s) = wraw s) /\
+  (forall p l, is_nil (IIris p l) = false ->
+               genc E (IIris p l) = WCat (WOpaque (wenc_iris_t E (olist l))) (WList (map wraw (olist l)))) /\
+  genc E (IItems true None) = WList [] /\
+  (forall p l, genc E (IItems p (Some l)) = WList (map (genc E) l)) /\
+  (forall p k fs, genc E (IObj p k fs) = enc_struct E k (pre_fields E fs)).
+Proof.
+  intros E He. repeat split; intros.
+  - now apply genc_nil. - now apply genc_iri. - now apply genc_iris. - now apply genc_items_none.
+  - now apply GobCodecP.genc_items. - now apply GobCodecP.genc_obj.
+Qed.
+
+(* whatever the constructor table says, a value GetItemByType creates holds nothing but empty language lists and a
+   type name: no table condition needed (the unmap functions then overwrite / append) *)
+Theorem C03_fresh_value : forall E f ty,
+  getf f (fresh_fields E ty) = None \/ getf f (fresh_fields E ty) = Some (FNlv (Some [])) \/
+  (f = F_Type /\ exists t, t <> [] /\ getf f (fresh_fields E ty) = Some (FStr t)).
+Proof. exact getf_fresh. Qed.
+
+(* the conditions are not vacuous: a decoder that stores with Set semantics, an encoder that swaps key and value,
+   a gobEncodeItem without the pointer case are rejected *)
+Example C03_codecs_condition_rejects :
+  all2 glr_same [LrRetNilIfEmpty []; LrDeclare how_make0 ty_kvs []; LrDecodeLocal []; LrUnrecognised (B "for _, m := range mm { n.Set(LangRef(m.K), m.V) }") []; LrRetNil []] cr_nlv = false /\
+  all2 glw_same [LwRetEmptyIfLen0 [[]] []; LwBuffer []; LwEncoder []; LwMkKvs n_value n_ref []; LwEncode n_encode n_local []; LwRetBuffer []] cw_nlv = false /\
+  enc_item_ok genv_pinned = false /\ gob_whole_ok genv_pinned = false.
+Proof. vm_compute. repeat split; reflexivity. Qed.
